@@ -296,6 +296,11 @@ func (self *Metadata) enumerateTemp() ([]string, error) {
 		return nil, nil
 	} else {
 		paths, err := util.Readdirnames(td)
+		if err != nil && os.IsNotExist(err) {
+			// Already cleaned up, for example by a run of mrp which was
+			// interrupted before it could record that.
+			return nil, nil
+		}
 		for i, p := range paths {
 			paths[i] = path.Join(td, p)
 		}
